@@ -183,6 +183,19 @@ fn main() {
                 }
             }
         }
+        "gen" => {
+            // write the scenario with batch index --index as a replay file (debugging aid)
+            let pool: a5sim::pool::Pool = serde_json::from_str(&std::fs::read_to_string(get(&m, "pool", String::new())).expect("pool")).expect("pool json");
+            let refs: Vec<a5sim::scenario::RefEntry> = serde_json::from_str(&std::fs::read_to_string(get(&m, "refs", String::new())).expect("refs")).expect("refs json");
+            let g = a5sim::scenario::GenCtx::new(&pool, &refs);
+            let vs = get(&m, "seed", 0u64);
+            let sc = a5sim::scenario::generate(&g, a5sim::batch::scenario_seed(vs, get(&m, "index", 0u64)));
+            let f = a5sim::replay::ReplayFile {
+                property: "C13".into(), engine: "H".into(), verif_seed: vs, profile: a5sim::replay::profile_name().into(),
+                decisions: vec![Vec::new()], scenarios: vec![sc], violation: None, minimised: false, note: "generated".into(), origin: None,
+            };
+            a5sim::replay::save(&get(&m, "out", "/tmp/gen.json".to_string()), &f);
+        }
         "pool" => {
             let p = a5sim::pool::build(get(&m, "seed", 0u64), get(&m, "size", 4000usize));
             let mut kinds: std::collections::BTreeMap<&str, usize> = Default::default();
